@@ -83,6 +83,13 @@ def run_case(wire, op, plan, cap, before=()):
     rs = (None, 16, None, 7, None)[(h // 3) % 5]
     if rs:
         c.read_size = rs
+    # ... and a quarter with slow delivery: 40 % of the client's read timeout passes (on the clocks the client can
+    # read) before every recv() returns -- each segment is in time, a reply in many segments takes long in total
+    slow = (h // 11) % 4 == 0
+    if slow:
+        s.tick = 0.4 * float(getattr(c, "read_timeout", 5) or 5)
+        with M.VirtualClock(), contextlib.redirect_stdout(io.StringIO()):
+            return _run_case(M, c, s, op, before)
     with contextlib.redirect_stdout(io.StringIO()):
         return _run_case(M, c, s, op, before)
 
@@ -325,7 +332,8 @@ def big_literal_cases(prop, tier, seed):
     for k in range(260):
         lines.append(rng.choice(["", "# comment line %d" % k, "OK \"looks like a status\"", "NO", "{12}", "keep;",
                                  'if header :contains "subject" "x%d" { fileinto "f"; }' % k, "BYE bye", "é☃ %d" % k]))
-    for body in ("\r\n".join(lines) + "\r\n", "\n".join(lines[:200]), "x" * 9000 + "\r\n\r\ntail\r\n"):
+    huge = "".join("# line %d of a very long script: OK {%d}\r\n" % (k, k) for k in range(30000))      # > 1 MiB
+    for body in ("\r\n".join(lines) + "\r\n", "\n".join(lines[:200]), "x" * 9000 + "\r\n\r\ntail\r\n", huge):
         raw = body.encode("utf-8")
         wire = b"{%d}\r\n" % len(raw) + raw + b"\r\nOK \"done\"\r\n"
         base = run_case(wire, "getscript", None, 0)
@@ -337,8 +345,10 @@ def big_literal_cases(prop, tier, seed):
                              "obs": repr(base)[:300], "expl": None, "what": "result does not mirror the reply"})
         scheds = [[100], [4096], [4097, 1], [len(wire) - 5], [10, 4096, 4096], [3000, 3000], [1] * 3 + [5000]]
         scheds += [random_split(len(wire), rng) for _ in range(3 if tier == "quick" else 25)]
+        if body is huge:
+            scheds = [[100], [len(wire) - 5], random_split(len(wire), rng)]
         for plan in scheds:
-            for cap in (0, 4096, 1000):
+            for cap in ((0, 4096, 1000) if body is not huge else (0, 65536)):
                 o2 = run_case(wire, "getscript", (lambda b, p=plan, w=wire: (p if b == w else [len(b)])), cap)
                 n += 1
                 same = all(o2.get(k) == base.get(k) for k in ("res", "errcode", "errmsg", "s1", "s2"))
